@@ -539,7 +539,7 @@ def deliver_verdict(log, must, may=()):
 
 
 def crash_chunk(arg):
-    idx, variant, n_before = arg
+    idx, variant, n_before, part, nparts = arg
     from tatsu.packetz.queue import PacketzQueue
     acc = Acc()
     to, data = CRASH_VARIANTS[variant]
@@ -568,7 +568,7 @@ def crash_chunk(arg):
             if v:
                 acc.fail('crash', v[0], wit(scn, k), v[1])
 
-        for k in range(L + 1):
+        for k in range(part, L + 1, nparts):
             complete = k == L
             now = sent_before + ([last_p] if complete else [])
             # cold reader on the cut file, then the writer finishes the record
@@ -837,9 +837,10 @@ def run(tier, seed, info):
 
     # (c) crash points ---------------------------------------------------------------------------
     ok_writer = writer_matches_pack()
-    cargs = [(i, v, n) for i, (v, n) in enumerate(itertools.product(('ascii', 'nonascii', 'dict'), (0, 1, 2) if quick else (0, 1, 2, 3)))]
+    cargs = [(v, n, 0, 1) for v, n in itertools.product(('ascii', 'nonascii', 'dict'), (0, 1, 2) if quick else (0, 1, 2, 3))]
     if not quick:
-        cargs += [(len(cargs), 'big', 0), (len(cargs) + 1, 'big', 1)]
+        cargs += [('big', n, part, 16) for n in (0, 1) for part in range(16)]
+    cargs = [(i, *a) for i, a in enumerate(cargs)]
     cacc = Acc()
     for a in pmap(crash_chunk, cargs):
         cacc.merge(a)
